@@ -28,21 +28,21 @@ P = {
     "streams": [{
         "name": "proxy", "pkg": "./internal/handler/proxy", "test": "TestVerifC15",
         "overlay": {"internal/handler/proxy/zz_verif_c15_test.go": "c15/c15_test.go"},
-        "eval_module": "Run.Eval_C15", "check_term": "check repaired",
+        "eval_module": "Run.Eval_C15", "check_term": "check repaired2",
         "n_quick": 1200, "n_thorough": 30000, "shard": 150,
-        "findings": {2: "C15-F2", 3: "C15-F3", 5: "C15-F5", 6: "C15-F6", 7: "C15-F7", 8: "C15-F8"},
+        "findings": {2: "C15-F2", 3: "C15-F3", 5: "C15-F5", 8: "C15-F8"},
     }, {
         "name": "units", "pkg": "./internal/rules/config", "test": "TestVerifC15Units",
         "overlay": {"internal/rules/config/zz_verif_c15_units_test.go": "c15/c15_units_test.go"},
-        "eval_module": "Run.Eval_C15", "check_term": "ucheck repaired",
+        "eval_module": "Run.Eval_C15", "check_term": "ucheck repaired2",
         "n_quick": 1500, "n_thorough": 40000, "shard": 300,
-        "findings": {6: "C15-F6"},
+        "findings": {},
     }, {
         "name": "e2e", "pkg": "./internal/zzverif/c15e2e", "test": "TestVerifC15E2E",
         "overlay": dict(ASSEMBLY_OVERLAY, **{"internal/zzverif/c15e2e/c15_e2e_test.go": "c15/c15_e2e_test.go"}),
-        "eval_module": "Run.Eval_C15", "check_term": "check repaired",
+        "eval_module": "Run.Eval_C15", "check_term": "check repaired2",
         "n_quick": 400, "n_thorough": 6000, "shard": 150,
-        "findings": {2: "C15-F2", 3: "C15-F3", 5: "C15-F5", 6: "C15-F6", 7: "C15-F7", 8: "C15-F8"},
+        "findings": {2: "C15-F2", 3: "C15-F3", 5: "C15-F5", 8: "C15-F8"},
     }],
     "rule": "requests written byte for byte over TCP (request target of 1-4 segments built from words, percent-escapes of reserved / "
             "unreserved / non-ASCII bytes in either hex case, reserved literals, bytes net/url re-encodes, broken escapes; queries with "
